@@ -35,6 +35,10 @@ impl PrimitiveCell {
     pub fn new(cell: &Cell, symprec: f64) -> Result<Self, MoyoError> {
         // cell.lattice.basis * reduced_trans_mat = reduced_cell.lattice.basis
         let (reduced_lattice, reduced_trans_mat) = cell.lattice.minkowski_reduce()?;
+        #[cfg(feature = "verif")]
+        if crate::verif::trace::detail() {
+            crate::verif::trace::push(format!("s1.mink {}", crate::verif::trace::imat(&reduced_trans_mat)));
+        }
         let reduced_cell =
             UnimodularTransformation::from_linear(reduced_trans_mat).transform_cell(cell);
 
@@ -75,6 +79,12 @@ impl PrimitiveCell {
         }
 
         // Purify translations by permutations
+        #[cfg(feature = "verif")]
+        if crate::verif::trace::detail() {
+            for (p, t) in permutations_translations_tmp.iter() {
+                crate::verif::trace::push(format!("s1.cand {} ; {}", crate::verif::trace::perm(p), crate::verif::trace::fvec(t)));
+            }
+        }
         let mut translations = vec![];
         let mut permutations = vec![];
         for (permutation, rough_translation) in permutations_translations_tmp.iter() {
@@ -84,6 +94,10 @@ impl PrimitiveCell {
                 &Rotation::identity(),
                 rough_translation,
             );
+            #[cfg(feature = "verif")]
+            if crate::verif::trace::detail() {
+                crate::verif::trace::push(format!("s1.dist {} {}", distance.to_bits(), (distance < symprec) as i32));
+            }
             if distance < symprec {
                 translations.push(translation);
                 permutations.push(permutation.clone());
@@ -109,6 +123,10 @@ impl PrimitiveCell {
         };
 
         // Primitive cell
+        #[cfg(feature = "verif")]
+        if crate::verif::trace::detail() {
+            crate::verif::trace::push(format!("s1.transmat {}", crate::verif::trace::imat(&trans_mat)));
+        }
         let (primitive_cell, site_mapping, _) = primitive_cell_from_transformation(
             &reduced_cell,
             &trans_mat,
@@ -116,6 +134,10 @@ impl PrimitiveCell {
             &permutations,
         );
         let (_, prim_trans_mat) = primitive_cell.lattice.minkowski_reduce()?;
+        #[cfg(feature = "verif")]
+        if crate::verif::trace::detail() {
+            crate::verif::trace::push(format!("s1.pmink {}", crate::verif::trace::imat(&prim_trans_mat)));
+        }
         let reduced_prim_cell =
             UnimodularTransformation::from_linear(prim_trans_mat).transform_cell(&primitive_cell);
 
